@@ -165,11 +165,22 @@ def _is_rewrap_of(sent, ev_root):
 
 
 def filter_true_sets(F, kb):
+    """The event shapes a filter closure accepts: for every path of its deep table (helpers inlined) returning true, the
+    {ADT: variant} it learned about its argument."""
+    from . import deep as D
+    dp = D.Deep(F, kb, max_paths=2000)
     out = []
-    for p in A.enumerate_paths(kb):
-        if p.ret is True:
-            out.append(frozenset(short_dec(p).items()))
-        elif p.ret is None:
+    for p in dp.run():
+        if p.ret == ("const", True):
+            d = {}
+            for a, o in p.conds:
+                if a[0] == "discr" and isinstance(o, str):
+                    adt = dp.adt_of.get(a, "")
+                    if adt.startswith("event::") or adt == "std::result::Result":
+                        if D.mentions(a[1], lambda x: x == ("arg", 2)):
+                            d[adt.rsplit("::", 1)[-1]] = o
+            out.append(frozenset(d.items()))
+        elif p.ret != ("const", False):
             out.append(frozenset([("?", "unknown-result")]))
     return set(out)
 
